@@ -63,6 +63,7 @@ class XTyper:
         self.counter = 0
         self.guarded: list[tuple] = []      # (fi, If node, polarity, map type): early returns of a map whose values are attribute values
         self.vs_attrs: dict = {}            # igraph object name -> {attribute key: stored sequence type}; only for graphs built by hand
+        self.short_zips: list = []          # (fi, zip call, message): a zip whose second sequence is provably shorter by a constant
 
     def fresh(self, hint="g"):
         self.counter += 1
@@ -261,6 +262,9 @@ class XTyper:
                 return b
             k = self.ev(fi, e.slice, env)
             if b[0] == "NodeView":
+                if k[0] == "Idx" and isinstance(k[1], tuple) and len(k[1]) == 2 and k[1][0] == "IG" and self.strict:
+                    # m.nodes[i] with i an igraph vertex id: the node view is keyed by node labels
+                    raise XViolation(e, f"the node view (keyed by {fmt_space(('NX', b[1]))}) is read with an index in {fmt_space(k[1])}: the two agree only for a graph whose nodes are listed in label order 0..n-1")
                 return ("AttrDict", b[1])
             if b[0] == "AttrDict":
                 return ("Const", None)
@@ -304,6 +308,8 @@ class XTyper:
             b = self.ev(fi, e.value, env)
             if b[0] == "IGraph" and e.attr == "vs":
                 return ("VS", b[1], b[2])
+            if b[0] == "Idx" and isinstance(b[1], tuple) and b[1][:1] == ("VTX",) and e.attr == "index":
+                return ("Idx", (b[1][2], b[1][1]))        # a vertex's own id
             if b[0] == "Graph" and e.attr == "nodes":
                 return ("NodeView", b[1])
             if b[0] == "Graph" and e.attr == "edges":
@@ -328,6 +334,9 @@ class XTyper:
             it = self.ev(fi, g.iter, env)
             if it[0] == "NodeView":
                 it = ("Graph", it[1])
+            if it[0] == "VS":
+                # the vertices of an igraph graph, in vertex-id order
+                it = ("Seq", (it[2], it[1]), ("VTX", it[1], it[2]), True, ("nodes", it[1]))
             env2 = dict(env)
             self.bind_iter(g.target, it, env2)
             el = self.ev(fi, e.elt, env2)
@@ -428,6 +437,13 @@ class XTyper:
                     return ("Pairs", b[1], b[2], b[3], b[4])
                 if len(args) == 2 and args[0][0] == "Seq" and args[1][0] == "Seq":
                     a, b = args
+                    for x_, y_ in ((a, b), (b, a)):
+                        if isinstance(y_[4], tuple) and y_[4][:1] == ("short",) and y_[4][1] == x_[4] and x_[4] is not None:
+                            msg_ = (f"zip pairs a sequence with one element per atom with {y_[4][2]} fewer numbers: the last {y_[4][2]} get no partner "
+                                    "(a relabelling made from it leaves their labels as they are, and two atoms can end up under one label)")
+                            if self.strict:
+                                raise XViolation(e, msg_)
+                            self.short_zips.append((fi, e, msg_))
                     # zip(xs, range(len(xs))) numbers xs by its own positions, like enumerate(xs) the other way round
                     # (the k-th pair holds k whatever the length of the range is; a range of another length leaves the number of
                     # pairs open, which is a question of totality, not of what the numbers mean)
@@ -450,6 +466,13 @@ class XTyper:
                 return U("zip")
             if name == "enumerate":
                 a = args[0]
+                start_ = e.args[1] if len(e.args) > 1 else kwarg(e, "start")
+                if start_ is not None and not (isinstance(start_, ast.Constant) and start_.value == 0):
+                    # counting from something else than 0: the numbers are positions shifted, not positions
+                    k_ = start_.value if isinstance(start_, ast.Constant) and isinstance(start_.value, int) else "?"
+                    if a[0] == "Seq":
+                        return ("Pairs", ("SHIFTED", a[1], k_), a[2], a[3], a[4])
+                    return U("enumerate from another start")
                 if a[0] == "Seq":
                     return ("Pairs", a[1], a[2], a[3], a[4])
                 if a[0] == "Graph":
@@ -564,12 +587,18 @@ class XTyper:
             d = single_def(fi.node, e.id)
             if d is not None:
                 return self.len_symbol(fi, d, env)
+        if isinstance(e, ast.BinOp) and isinstance(e.op, ast.Sub) and isinstance(e.right, ast.Constant) and isinstance(e.right.value, int) and e.right.value > 0:
+            base = self.len_symbol(fi, e.left, env)
+            if base is not None and base[0] != "short":
+                return ("short", base, e.right.value)          # k fewer than that
         return None
 
 
 def fmt_space(s):
     if isinstance(s, tuple) and len(s) == 2 and s[0] in ("NX", "IG", "CAN"):
         return {"NX": "node labels", "IG": "igraph vertex ids (insertion positions)", "CAN": "canonical positions"}[s[0]]
+    if isinstance(s, tuple) and len(s) == 3 and s[0] == "SHIFTED":
+        return f"{fmt_space(s[1])} counted from {s[2]} instead of 0"
     return str(s)
 
 
@@ -752,12 +781,18 @@ def r_bij(ctx) -> RuleResult:
         raise AnalysisError("R-BIJ: no relabel_nodes site (anchor vanished)")
     pub = {f.fq for f in fis}
     guarded_done: set = set()
+    short_reported: set = set()
 
     def type_from(fn_, node):
         """[(graph type, map type)] of the relabel call `node` when fn_ is typed with its first parameter as a graph"""
         T = XTyper(ctx, conv, strict=False)
         params = params_of(fn_.node)
         T.call(fn_, [("Graph", "m")] + [U("param")] * (len(params) - 1))
+        for f_sz, e_sz, msg_sz in T.short_zips:
+            if (f_sz.fq, e_sz.lineno) not in short_reported:
+                short_reported.add((f_sz.fq, e_sz.lineno))
+                res.inst(f_sz.fq, short(e_sz, 70), "fail")
+                res.fail(Finding("R-BIJ", f_sz.module.rel, f_sz.qualname, norm(e_sz), msg_sz, line=e_sz.lineno))
         if T.guarded and id(node) not in guarded_done:
             guarded_done.add(id(node))
             guarded_attribute_maps(ctx, T, res, "R-BIJ")
@@ -800,6 +835,8 @@ def r_bij(ctx) -> RuleResult:
                 if m[0] == "Map" and not m[3] and keys_are_labels and not values_may_repeat:
                     # keys are node labels and values positions, only that they pair up one to one is not established
                     # (a length the typing does not know): not shown, and not refuted
+                    if any(f_.function == fi.qualname for f_ in res.findings):
+                        continue        # already shown wrong by a construct in this function (a zip that is provably short)
                     raise AnalysisError(f"R-BIJ: mapping {fmt(m)} at {fi.loc(node)}: that keys and values pair up one to one is not established ({why})")
                 if m[0] == "Map" and not m[3]:
                     res.inst(where, short(node), "fail", detail=f"{fmt(m)}")
